@@ -72,7 +72,7 @@ QGrad(p, x, i) == p.beta * SumS(Nb(p, i), LAMBDA n : n[2] * KK(p, i, n[1]) * (x[
 \* Hessian = Jacobian of the gradient: H[i][j] = d g_i / d x_j
 QHessDiag(p, i) == p.beta * SumS({ n \in Nb(p, i) : n[1] # i }, LAMBDA n : n[2] * KK(p, i, n[1]))
 QHessRow(p, i) ==   \* sparse: set of <<j, value>>, value # 0
-  LET off == { <<n[1], -(p.beta * n[2] * KK(p, i, n[1]))>> : n \in { m \in Nb(p, i) : m[1] # i } }
+  LET off == { <<n[1], -(p.beta * n[2] * KK(p, i, n[1]))>> : n \in { m \in Nb(p, i) : m[1] # i /\ p.beta * m[2] * KK(p, i, m[1]) # 0 } }
       dg == QHessDiag(p, i) IN
   IF dg = 0 THEN off ELSE off \cup { <<i, dg>> }
 QHess(p, i, j) == SumS({ e \in QHessRow(p, i) : e[1] = j }, LAMBDA e : e[2])
@@ -142,6 +142,16 @@ WeightSum(p, i) == p.beta * SumS({ n \in Nb(p, i) : n[1] # i }, LAMBDA n : n[2] 
 Slack(abssum) == abssum \div 65536 + 2
 \* observation o (round(v 2^k)) agrees with a fixed-point sum whose exact value lies in [lo, hi]
 Within(o, lo, hi, abssum) == o >= lo - Slack(abssum) /\ o <= hi + Slack(abssum)
+
+\* Exact instances: with gamma = 0 and a + b + eps a power of two (<= 32) for every pair of neighbours, every term
+\* above is a dyadic rational with at most 15 fractional bits: Fix is exact (no floor error) and so is the
+\* single/double precision arithmetic of the implementation; the specification then demands equality.
+IsPow2(d) == d \in {1, 2, 4, 8, 16, 32}
+RDyadic(p, x) == /\ p.gamma = 0
+                 /\ \A i \in Vox(p.dims) : \A n \in Nb(p, i) : n[1] = i \/ IsPow2(RD(p, x[i], x[n[1]]))
+\* Log-cosh prior, exact instances: on an image without differences between neighbours the value and the gradient
+\* vanish (log cosh 0 = 0, tanh 0 = 0) and the Hessian is that of the quadratic prior (sech^2 0 = 1), whatever the scalar.
+Flat(p, x) == \A i \in Vox(p.dims) : \A n \in Nb(p, i) : x[n[1]] = x[i]
 
 \* --- theorems about the potential (MC_Priors): the derivative formulas are bracketed by unit
 \* differences of the function they claim to differentiate (psi is convex in a for a, b >= 0;
